@@ -1688,7 +1688,11 @@ def simp(v):
     # ==  sorted(S, key=lambda x: T(x))   (the same tuples are compared in the same order; both sorts are stable)
     if k == "comp" and v[1] == "list" and len(v[3]) == 1 and not v[3][0][2] and v[3][0][0] is not None:
         tg, it, _ = v[3][0]
-        inner = strip_transparent(it[2][0]) if it[0] == "call" and it[1] == ("global", "sorted") and len(it[2]) == 1 and not it[3] else None
+        # (with sorted(.., key=lambda t: K(t)) the records are compared by K(T(x)): that is the key of the undecorated sort)
+        dkey = None
+        if it[0] == "call" and it[1] == ("global", "sorted") and len(it[2]) == 1 and len(it[3]) == 1 and it[3][0][0] == "key" and it[3][0][1][0] == "lambda" and len(it[3][0][1][1]) == 1:
+            dkey = it[3][0][1]
+        inner = strip_transparent(it[2][0]) if it[0] == "call" and it[1] == ("global", "sorted") and len(it[2]) == 1 and (not it[3] or dkey is not None) else None
         while inner is not None and inner[0] == "call" and inner[1] in (("global", "list"), ("global", "tuple")) and len(inner[2]) == 1 and not inner[3]:
             inner = inner[2][0]
         if inner is not None and inner[0] == "call" and inner[1] == ("global", "zip") and inner[2] and not inner[3] and not any(a[0] == "star" for a in inner[2]):
@@ -1712,6 +1716,13 @@ def simp(v):
                         pick = i_ % n_
                 if pick is not None and T[1][pick] == x:
                     seq = src if not ifs else ("comp", "list", x, ((x, src, ifs),))
+                    if dkey is not None:
+                        kb = dkey[2]
+                        if kb[0] == "sub" and kb[1] == dkey[1][0] and kb[2][0] == "const" and type(kb[2][1]) is int and -n_ <= kb[2][1] < n_:
+                            kb = T[1][kb[2][1]]                                   # t[i] of the record is its i-th component
+                        else:
+                            kb = simp(subst(kb, {dkey[1][0]: T}))
+                        return ("call", ("global", "sorted"), (seq,), (("key", ("lambda", (x,), kb)),))
                     return ("call", ("global", "sorted"), (seq,), (("key", ("lambda", (x,), T)),))
     if k == "sub" and v[1][0] == "dict" and v[2][0] == "const" and v[1][1] and all(len(e) == 2 and e[0][0] == "const" for e in v[1][1]):
         # {"a": x, "b": y}["a"] is x (a literal table read back by a literal key)
